@@ -19,7 +19,7 @@ def decodeMod : Sexp → Option Modifier
   | .atom "F" => some .forked
   | _ => none
 
-def decodeGate : Sexp → Option (Gate CFloat)
+def decodeGate : Sexp → Option (Gate C64)
   | .list [.atom "gate", .str name, .list (.atom "mods" :: ms), .list (.atom "params" :: ps),
            .list (.atom "qubits" :: qs)] =>
     match decodeAll decodeMod ms, decodeAll decodeParam ps, decodeAll decodeQubit qs with
@@ -27,7 +27,7 @@ def decodeGate : Sexp → Option (Gate CFloat)
     | _, _, _ => none
   | _ => none
 
-def decodeInstr : Sexp → Option (Instr CFloat)
+def decodeInstr : Sexp → Option (Instr C64)
   | .list [.atom "halt"] => some .halt
   | .list [.atom "other"] => some .other
   | s => (decodeGate s).map .gate
@@ -37,18 +37,18 @@ private def fixedOnly : List Qubit → Option (List Nat)
   | .fixed k :: qs => (fixedOnly qs).map (k :: ·)
   | _ :: _ => none
 
-private def realNums : List (Param CFloat) → Option (List CFloat)
+private def realNums : List (Param C64) → Option (List C64)
   | [] => some []
-  | .num z :: ps => if z.2 == 0.0 then (realNums ps).map (z :: ·) else none
+  | .num z :: ps => if z.im == 0.0 then (realNums ps).map (z :: ·) else none
   | _ :: _ => none
 
 /-- the gate as the specification sees it, when it is a well-formed application to distinct fixed qubits `< n` -/
-def specArgs (g : Gate CFloat) (n : Nat) : Option (List Modifier × String × List CFloat × List Nat) :=
+def specArgs (g : Gate C64) (n : Nat) : Option (List Modifier × String × List C64 × List Nat) :=
   match fixedOnly g.qubits, realNums g.params with
   | some qs, some θs => if validPlacement qs n then some (g.mods, g.name, θs, qs) else none
   | _, _ => none
 
-def gateSpec (g : Gate CFloat) (n : Nat) : Option M :=
+def gateSpec (g : Gate C64) (n : Nat) : Option M :=
   (specArgs g n).bind fun (ms, name, θs, qs) => denote n ms name θs qs
 
 private def modsTag (ms : List Modifier) : String :=
@@ -71,15 +71,15 @@ def encodeQubit : Qubit → Sexp
 
 /-- gates are compared structurally except for numeric parameters, which the harness echoes bit for bit;
 the model only moves them around, so comparing the encoded form is exact -/
-def encodeGate (g : Gate CFloat) : Sexp :=
+def encodeGate (g : Gate C64) : Sexp :=
   .list [.atom "gate", .str g.name,
     .list (.atom "mods" :: g.mods.map fun | .controlled => .atom "C" | .dagger => .atom "D" | .forked => .atom "F"),
     .list (.atom "params" :: g.params.map fun
-      | .num z => .list [.atom "num", ExprWire.encodeF64 z.1, ExprWire.encodeF64 z.2]
+      | .num z => .list [.atom "num", ExprWire.encodeF64 z.re, ExprWire.encodeF64 z.im]
       | .other => .list [.atom "other"]),
     .list (.atom "qubits" :: g.qubits.map encodeQubit)]
 
-def encodeInstr : Instr CFloat → Sexp
+def encodeInstr : Instr C64 → Sexp
   | .gate g => encodeGate g
   | .halt => .list [.atom "halt"]
   | .other => .list [.atom "other"]
@@ -148,7 +148,7 @@ def handle (inp out : Sexp) : CaseResult :=
     match decodeGate g with
     | none => .bad "undecodable api case"
     | some g =>
-      let step (acc : Option (Option (Gate CFloat))) (op : Sexp) : Option (Option (Gate CFloat)) :=
+      let step (acc : Option (Option (Gate C64))) (op : Sexp) : Option (Option (Gate C64)) :=
         match acc with
         | none => none                       -- undecodable
         | some none => some none             -- an earlier `forked` failed: the harness stopped there
